@@ -326,6 +326,8 @@ def gen_seg_ops(tier, rng):
                 if at >= 1:
                     wrong_t = 0x10 if (at - 1) % 2 == 0 else 0x00      # the toggle the client does NOT expect
                     kinds.append("stale:" + c04.hx(bytes([wrong_t | 0x02]) + bytes([9, 9, 9, 9, 9, 9, 0])))
+                    # … and the last segment of an earlier transfer (last flag set, toggle not the expected one)
+                    kinds.append("stale:" + c04.hx(bytes([wrong_t | 0x03]) + bytes([0xd6, 0xd7, 0xd8, 0xd9, 0xda, 0xdb, 0])))
                 if tier == "quick" and n not in (0, 4, 5, 14, 15):
                     kinds = rng.sample(kinds, 4)
                 for kind in kinds:
